@@ -15,6 +15,8 @@ H = ("HashMap", "HashSet", "PoolMap")
 def run(prog, chk):
     chk.extra["explanation"] = EXPLANATION
     wit.members_instantiate(prog, chk, "C02.a", H)
+    if chk.viol:
+        return   # a member does not instantiate: the path rules have no complete instantiation to look at
     C.find_then_link(prog, chk, "C02.b", H)
     C.link_idiom(prog, chk, "C02.c1", H)
     C.unlink_idiom(prog, chk, "C02.c2", H)
